@@ -162,6 +162,7 @@ JudgeSummary(e, P) ==
   ELSE LET rows == e.rows
            want == IF e.f = 0 THEN DOMAIN P.feats ELSE {e.f}
        IN  Flag({rows[i][1] : i \in DOMAIN rows} = want, "C16_summary_features")
+      \cup Flag(e.history_of_feature_ok, "C16_history_of_feature_differs")      \* history(f) = the rows of history() about f
       \cup UNION {
            LET ft == P.feats[f]
                frows == {rows[i] : i \in {j \in DOMAIN rows : rows[j][1] = f}}
